@@ -67,15 +67,15 @@ Theorem C10_list_independent_of_what_follows : forall fuel suf doc n it rd o nn 
 Proof. intros fuel suf doc n. exact (proj1 (lists_suffix fuel suf doc n)). Qed.
 Print Assumptions C10_list_independent_of_what_follows.
 
-(* END TO END: the one-line document "- item" (item over the safe alphabet, starting and ending with a non-space, of any length)
-   renders to <ul><li>item</li></ul>, with the stack of open list markers empty afterwards and nothing else in the session
+(* END TO END: the one-line document "- item" or "+ item" (item over the safe alphabet, starting and ending with a non-space, of any
+   length) renders to <ul><li>item</li></ul>, with the stack of open list markers empty afterwards and nothing else in the session
    changed: no line-block pattern matches the line, the first list pattern recognises the marker (one derivation, exact
    semantics), the list is opened with the marker pushed, the item loop finds the end of input, the item text is rendered inline,
    the list is closed with the marker popped *)
-Theorem C10_single_item_list : forall n item s, quiet_default s -> li_item_ok item ->
-  doc_render (S (S (S (S (S (S (S n))))))) (li_line item) s =
+Theorem C10_single_item_list : forall n mk item s, In mk markers -> quiet_default s -> li_item_ok item ->
+  doc_render (S (S (S (S (S (S (S n))))))) (li_line mk item) s =
   Ok ($"<ul><li>" ++ escape item ++ $"</li></ul>", set_listids s []).
-Proof. exact single_item_list_document. Qed.
+Proof. intros n mk item s H. exact (single_item_list_document mk H n item s). Qed.
 Print Assumptions C10_single_item_list.
 
 Example C10_ex_single_item :
@@ -86,17 +86,34 @@ Example C10_ex_single_item :
 Proof. vm_compute. reflexivity. Qed.
 
 (* ... and through rimu.render: whatever the option values of the call do to the session first *)
-Theorem C10_single_item_list_api : forall n item o s s1,
+Theorem C10_single_item_list_api : forall n mk item o s s1, In mk markers ->
   updateFrom o (if (s_mode s =? -1)%Z then document_init s else s) = Ok (tt, s1) -> quiet_default s1 -> li_item_ok item ->
-  api_render (S (S (S (S (S (S (S n))))))) (li_line item) o s = Ok ($"<ul><li>" ++ escape item ++ $"</li></ul>", set_listids s1 []).
+  api_render (S (S (S (S (S (S (S n))))))) (li_line mk item) o s = Ok ($"<ul><li>" ++ escape item ++ $"</li></ul>", set_listids s1 []).
 Proof. exact single_item_list_api. Qed.
 Print Assumptions C10_single_item_list_api.
 
 (* THE SAME MARKER CONTINUES THE LIST: the two-line document "- a" / "- b" renders to one list with two items -- the second line
    is recognised by the item loop of the first item as an item whose marker is already open, handed back to the loop over the
    items of that list, and rendered as its next item; afterwards the marker stack is empty *)
-Theorem C10_two_item_list : forall n item1 item2 s, quiet_default s -> li_item_ok item1 -> li_item_ok item2 ->
-  doc_render (S (S (S (S (S (S (S (S n)))))))) (li_line item1 ++ 10 :: li_line item2) s =
+Theorem C10_two_item_list : forall n mk item1 item2 s, In mk markers -> quiet_default s -> li_item_ok item1 -> li_item_ok item2 ->
+  doc_render (S (S (S (S (S (S (S (S n)))))))) (li_line mk item1 ++ 10 :: li_line mk item2) s =
   Ok ($"<ul><li>" ++ escape item1 ++ $"</li><li>" ++ escape item2 ++ $"</li></ul>", set_listids s []).
-Proof. exact two_item_list_document. Qed.
+Proof. intros n mk item1 item2 s H. exact (two_item_list_document mk H n item1 item2 s). Qed.
 Print Assumptions C10_two_item_list.
+
+(* A DIFFERENT MARKER OPENS A CHILD LIST: the two-line document "- a" / "+ b" (or "+ a" / "- b") renders to a list whose single item
+   holds a nested list with the second item -- the item loop of the first item finds an item whose marker is not open, renders
+   its list in place (marker pushed on top of the parent's, popped when the child closes) and attaches it to the item *)
+Theorem C10_nested_list : forall n mk1 mk2 item1 item2 s, In mk1 markers -> In mk2 markers -> mk1 <> mk2 ->
+  quiet_default s -> li_item_ok item1 -> li_item_ok item2 ->
+  doc_render (S (S (S (S (S (S (S (S (S (S (S n))))))))))) (li_line mk1 item1 ++ 10 :: li_line mk2 item2) s =
+  Ok ($"<ul><li>" ++ escape item1 ++ $"<ul><li>" ++ escape item2 ++ $"</li></ul></li></ul>", set_listids s []).
+Proof. exact nested_list_document. Qed.
+Print Assumptions C10_nested_list.
+
+Example C10_ex_nested :
+  match doc_render 14 ($"- parent" ++ [10] ++ $"+ child") (document_init S0) with
+  | Ok (html, _) => html = $"<ul><li>parent<ul><li>child</li></ul></li></ul>"
+  | _ => False
+  end.
+Proof. vm_compute. reflexivity. Qed.
